@@ -59,6 +59,21 @@ func init() {
 				c.guards(p.Fn, p.Instr, key, 2, guardCmp("application returned CodeTypeOK", `.*\.Code`, "==", "0"))
 			}
 		}
+		// v1 eviction accounting: the byte totals that decide "the victims free enough room" and "enough was
+		// evicted" are sums of the sizes of the pool elements being considered, not of the incoming tx
+		if f := c.fn("mempool/v1", "TxMempool.addNewTransaction"); f != nil {
+			fk := funcKey(f)
+			n := 0
+			for _, a := range accumulators(f) {
+				y := w.expr(a.y)
+				if !strings.HasSuffix(y, ".Size()") {
+					continue
+				}
+				n++
+				c.Check(regexp.MustCompile(`\.Value\.\(\*mempool/v1\.WrappedTx\)\.Size\(\)$`).MatchString(y) && !strings.HasPrefix(y, "wtx."), fk+" :: eviction byte total sums the victims' own sizes", w.ipos(a.add), y, "a byte total used for the eviction decision adds "+y+" per victim (not the victim's size): the bound on pool bytes no longer holds after an eviction")
+			}
+			c.Check(n >= 2, fk+" :: eviction byte totals found", w.pos(f.Pos()), fmt.Sprintf("%d", n), fmt.Sprintf("%d byte accumulators", n))
+		}
 		// capacity predicates themselves
 		for _, spec := range [][2]string{{"mempool/v0", "CListMempool.isFull"}, {"mempool/v1", "TxMempool.canAddTx"}} {
 			f := c.fn(spec[0], spec[1])
@@ -345,5 +360,37 @@ func init() {
 			c.Check(tasks == 1, funcKey(f)+" :: one recheck task closure per transaction", w.pos(f.Pos()), "recheck closure found; it captures a per-iteration copy", fmt.Sprintf("%d recheck task closures found", tasks))
 		}
 		_ = n
+	})
+}
+
+// ------------------------------------------------------------------ C12.R9
+// After every committed block the remaining pool content is rechecked (when rechecking is configured and
+// the pool is not empty): the application's verdict can change with any block, also an empty one. Decided
+// like the liveness transitions of C03: the recheck call's necessary branch conditions must come from the
+// table; an extra condition means a block after which stale transactions stay in the pool.
+func init() {
+	register("C12", "R9", "K11", "Update rechecks the remaining transactions after every block whenever rechecking is on and the pool is non-empty (both mempool versions)", 2, func(c *Ctx) {
+		w := c.W
+		type site struct{ pkg, fn, callee string }
+		for _, s := range []site{
+			{"mempool/v0", "CListMempool.Update", "mempool/v0#CListMempool.recheckTxs"},
+			{"mempool/v1", "TxMempool.Update", "mempool/v1#TxMempool.recheckTransactions"},
+		} {
+			f := c.fn(s.pkg, s.fn)
+			if f == nil {
+				continue
+			}
+			fk := funcKey(f)
+			calls := w.deepCallsTo(f, 1, s.callee)
+			c.Check(len(calls) == 1, fk+" :: recheck after the block", w.pos(f.Pos()), "1 call", fmt.Sprintf("%d recheck calls", len(calls)))
+			for _, dc := range calls {
+				for _, a := range w.necessaryAtoms(f, dc.site) {
+					// rechecking configured; pool not empty; the loop over the block's txs ran to its end; (v1) the
+					// argument-shape assertion that panics otherwise
+					ok := regexp.MustCompile(`^true\(\w+\.config\.Recheck\)$|^0 (<|!=) \w+\.Size\(\)$|^\w+\.Size\(\) (>|!=) 0$|^0 (<|!=) \w+\.txs\.Len\(\)$|^`+fwdIdx+` >= len\((txs|blockTxs)\)$|^len\(blockTxs\) == len\(deliverTxResponses\)$`).MatchString(a)
+					c.Check(ok, fk+" :: recheck happens after every block", w.ipos(dc.site), a, "the recheck additionally requires ["+a+"]: after a block for which that does not hold, transactions the application no longer accepts stay in the pool")
+				}
+			}
+		}
 	})
 }
